@@ -263,7 +263,8 @@ def _strace(work, name, k, call=None):
     import sys
     env = dict(os.environ, PYTHONPATH=common.VERIF, PYTHONDONTWRITEBYTECODE="1")
     log = work + ".strace"
-    cmd = ["strace", "-o", log, "-P", work, "-P", work + "-journal", "-e", "trace=" + SYSCALLS]
+    # the database file and whatever side file SQLite journals into (rollback journal, or write-ahead log + its index)
+    cmd = ["strace", "-o", log, "-P", work, "-P", work + "-journal", "-P", work + "-wal", "-P", work + "-shm", "-e", "trace=" + SYSCALLS]
     if k:
         cmd += ["-e", "inject=%s:signal=KILL:when=%d" % (call, k)]      # strace counts per system call
     cmd += [sys.executable, "-m", "harness.c09child", work, name]
